@@ -132,8 +132,11 @@ impl RegisterBase {
             .expect_iport_kind(store)?
             .write(address, buf, device, store, cx)?;
 
-        if self.cacheable == CachingMode::WriteThrough {
-            cx.cache_data(nid, address, length, buf);
+        match self.cacheable {
+            CachingMode::WriteThrough => cx.cache_data(nid, address, length, buf),
+            // The value read before this write must not be served any more.
+            CachingMode::WriteAround => cx.invalidate_cache_of(nid),
+            CachingMode::NoCache => {}
         }
         Ok(())
     }
